@@ -297,6 +297,15 @@ func doListing(ctx *fw.Ctx, in *instance, via string, msize uint32, count uint32
 		if eof {
 			return ls
 		}
+		if via == vFileClone {
+			if _, clone, err := dir.Walk(nil); err != nil {
+				ls.err, ls.errStage = err, "clone"
+				return ls
+			} else {
+				clone.Close()
+				in.calls += 2
+			}
+		}
 	}
 }
 
@@ -493,7 +502,7 @@ func rule(quick bool) string {
 	if quick {
 		t = "quick: n in 0..40; msize 4096: every k = 1..kmax; msize 65536: k = 1..n+2 and kmax-1, kmax (for larger k below msize-11 the first reply holds the whole directory)"
 	}
-	return "complete grid fs {localfs (real temp dir: regular files, directories, symlinks, fifos), staticfs, composefs flat / nested WithDir (outer/inner) / with a localfs mount (mnt) / with a staticfs mount (smnt)} x way {file-all, file-cut, client-server} x msize {4096, 65536} x name length {1, 17, 255} (raised to 2 resp. 3 for n = 1000 resp. 5000) x n x byte count; byte counts k*E-1, k*E, k*E+1 for entry size E = 24+len(name), k*E+1 <= msize-11, never below E, plus msize-12, msize-11, msize-10, msize-1, msize, msize+1, msize+E, 2*msize, 2*msize+1, 2^32-1; direct File access is msize independent and enumerates the union of both count lists once; " + t +
+	return "complete grid fs {localfs (real temp dir: regular files, directories, symlinks, fifos), staticfs, composefs flat / nested WithDir (outer/inner) / with a localfs mount (mnt) / with a staticfs mount (smnt)} x way {file-all, file-cut, client-server, file-all with a clone of the directory File made and closed between any two pages} x msize {4096, 65536} x name length {1, 17, 255} (raised to 2 resp. 3 for n = 1000 resp. 5000) x n x byte count; byte counts k*E-1, k*E, k*E+1 for entry size E = 24+len(name), k*E+1 <= msize-11, never below E, plus msize-12, msize-11, msize-10, msize-1, msize, msize+1, msize+E, 2*msize, 2*msize+1, 2^32-1; direct File access is msize independent and enumerates the union of both count lists once; " + t +
 		"; a case = one complete paged listing on a fresh directory handle; distinct outcome classes = fs x way x replies x entries per reply x verdict"
 }
 
